@@ -175,6 +175,23 @@ Proof.
 Qed.
 Print Assumptions c08_fallback.
 
+(* Return to Redis after an outage of ANY length: let the limiter be on the rescue path, and let evs be
+   any event sequence during which no ping is answered -- arbitrarily many clock steps, ticker rounds
+   of the monitor (failed pings), requests (all decided by the rescue bucket), faults and replacements.
+   As soon as the server answers again, the first ticker round switches back and the next healthy
+   call is decided by the script on the server's current state. Nothing that happened during the
+   outage (in particular no count of failed pings or evals) can delay this: in the model, whether a
+   call reaches the server depends on the server alone. *)
+Theorem c08_fallback_long_outage : forall c evs w l now n,
+  alive l = false -> monitor l = MRunning -> ping_up w = false -> Forall no_pong evs ->
+  let st1 := fst (trun c (w, l) evs) in
+  let w1 := mkW (clock (fst st1)) (rstore (fst st1)) true true in
+  forall s' ok, script_of c w1 now n = Some (s', ok) ->
+  snd (trun c (w, l) (evs ++ [TFault true true; TPing; TAllow now n CtxOk])) =
+    rescue_only (c_rate c) (c_burst c) (rescue l) evs ++ [ok].
+Proof. exact long_outage_recovers. Qed.
+Print Assumptions c08_fallback_long_outage.
+
 (* the in-process limiter (x/time/rate, as modelled) is the Spec bucket at ms resolution with the
    same rate and burst: same decisions on every monotone request sequence *)
 Theorem c08_rescue_is_bucket : forall rate burst t0 reqs, 1 <= rate -> 1 <= burst ->
